@@ -4,9 +4,12 @@ from __future__ import annotations
 import numpy as np
 import z3
 
-from symx.core import SReal, assume, cur, eq_arrays, explore, marray, mfloat, real, reals, rv, single_path, slice_for, terms
+from symx.core import PI_F, TWOPI_F, SReal, assume, cur, eq_arrays, explore, free_vars, marray, mfloat, real, reals, rv, single_path, slice_for, terms
 from symx.runner import Ob
+from symx.ext_c16 import ResidualCut
 from symx.stubs import CholeskyStub, inv_contract, shadow, sym_array, sym_full, sym_ones, sym_zeros
+
+PI, TWOPI = rv(PI_F), rv(TWOPI_F)
 
 ID = "C06"
 TECHNIQUE = ("the real UnscentedKalmanFilter methods (__init__, generateSigmaPoints, predict, forecast, update, calcMeasurementMean, "
@@ -25,7 +28,7 @@ ENCODED = [
     "resonaate.estimation.kalman.unscented_kalman_filter:UnscentedKalmanFilter.calcMeasurementMean",
     "resonaate.estimation.kalman.unscented_kalman_filter:UnscentedKalmanFilter.calculateMeasurementMatrix",
     "resonaate.estimation.kalman.unscented_kalman_filter:UnscentedKalmanFilter._calcMeasurementSigmaPoints",
-    "resonaate.physics.maths:residuals", "resonaate.physics.statistics:chiSquareQuadraticForm",
+    "resonaate.physics.maths:residuals", "resonaate.physics.statistics:chiSquareQuadraticForm",  # residuals() calls residual(): plain difference for non-angular components
 ]
 BOUNDS = {"predict": "state dimension n = 1..3 (thorough 4), all F, Q, P = L L^T (L lower triangular, positive diagonal), alpha in (0,1], any beta, n+kappa > 0",
           "update": "n = 1..2 (thorough 3), stacked measurement dimension m = 1..2 (one or two observations), both resampling modes",
@@ -36,7 +39,11 @@ ASSUMPTIONS = ["numpy.linalg.cholesky(M) -> the factor L the harness built M fro
                "numpy.linalg.inv / scipy.linalg.inv -> fresh X with M X = X M = I (invertible innovation covariance is a domain condition)",
                "a / b with symbolic b -> a * ib, ib * b = 1; sqrt(x) -> g >= 0, g*g = x",
                "dynamics.propagate(t0, t1, X) = F X; measurement = H x (duck-typed linear models); julian dates concrete",
-               "with S invertible, K S = C determines K uniquely, hence K is the Kalman gain (two-line argument outside the solver)"]
+               "with S invertible, K S = C determines K uniquely, hence K is the Kalman gain (two-line argument outside the solver)",
+               "update obligations: maths.residual(a, b, angular) -> a - b when not angular (what the real function does) and, should the filter flag a component of the linear measurement as an "
+               "angle, the contract of the wrap (symx.ext_c16.ResidualCut: fresh r in (-pi, pi], r = a - b - 2 pi n; proved of the real residual() by C16 O2/O2s); the first obligation of every "
+               "update case states that sigma_y_res and innovation are the plain differences; a counterexample to it is searched with the system matrices pinned to generic rationals (x, y free) "
+               "on the wrap contracts alone and is replayed on the real filter"]
 LEVEL_TEXT = ("Bounded symbolic verification: for every linear-Gaussian system of the stated small dimensions and every admissible tuning the UKF's "
               "prediction/update equal the Kalman equations as polynomial identities proved by the solver; this is universal in the matrices, which no finite set "
               "of numeric test systems is.")
@@ -102,20 +109,27 @@ def make_filter(n, resample, chol, tuned=True):
     return f, dict(x=x, L=L, P=P, F=F, Q=Q, alpha=alpha, beta=beta, kappa=kappa)
 
 
-def ukf_env(chol):
+def ukf_env(chol, rc=None):
     from resonaate.estimation.kalman import unscented_kalman_filter as U
+    from resonaate.physics import maths as M
     from resonaate.physics import statistics as ST
 
-    return [shadow(U, cholesky=chol, inv=inv_contract, zeros=sym_zeros, ones=sym_ones, full=sym_full, array=sym_array),
-            shadow(ST, inv=inv_contract)]
+    ctx = [shadow(U, cholesky=chol, inv=inv_contract, zeros=sym_zeros, ones=sym_ones, full=sym_full, array=sym_array),
+           shadow(ST, inv=inv_contract)]
+    if rc is not None:
+        # residual(a, b, angular=True) branches on the wrapped values; for a linear system the filter must never take that route.  Should
+        # it (a component wrongly flagged as an angle), the run continues on the contract of the wrap instead of forking, so that the
+        # update obligations return a verdict with a counterexample instead of a harness error
+        ctx.append(shadow(M, residual=rc))
+    return ctx
 
 
 class Env:
     """Stubs for the duration of a run: module-global shadowing plus the default argument
     `sqrt_func=cholesky` of generateSigmaPoints (bound at definition time)."""
 
-    def __init__(self, chol):
-        self.ctx = ukf_env(chol)
+    def __init__(self, chol, rc=None):
+        self.ctx = ukf_env(chol, rc)
         self.chol = chol
 
     def __enter__(self):
@@ -246,10 +260,12 @@ def replay_update(d):
     K = C @ np.linalg.inv(S)
     ex = F @ x + K @ (y - H @ F @ x)
     ep = pp - K @ S @ K.T
+    Ys = H @ f.sigma_points
     errs = {"innov_cvr": np.abs(f.innov_cvr - S).max(), "cross_cvr": np.abs(f.cross_cvr - C).max(), "est_x": np.abs(f.est_x - ex).max(),
-            "est_p": np.abs(f.est_p - ep).max()}
-    sc = max(1.0, np.abs(S).max(), np.abs(C).max(), np.abs(ex).max(), np.abs(ep).max())
-    return max(errs.values()) > 1e-6 * sc, errs
+            "est_p": np.abs(f.est_p - ep).max(), "innovation": np.abs(f.innovation - (y - H @ F @ x)).max(),
+            "sigma_y_res": np.abs(f.sigma_y_res - (Ys - (Ys @ f.mean_weight).reshape(-1, 1))).max()}
+    sc = max(1.0, np.abs(S).max(), np.abs(C).max(), np.abs(ex).max(), np.abs(ep).max(), np.abs(y).max(), np.abs(Ys).max())
+    return bool(max(errs.values()) > 1e-6 * sc), {k: float(v) for k, v in errs.items()}
 
 
 def _update_run(n, m, resample, split=None, tuned=False):
@@ -283,6 +299,53 @@ def _update_run(n, m, resample, split=None, tuned=False):
     return f, s
 
 
+def _pins(s, H, Lr):
+    """generic rational values for everything but the prior mean x and the measured values y (partial concretisation for the
+    counterexample search only: with them the residuals are linear in x, y)"""
+    out = []
+
+    def pin(v, val):
+        if isinstance(v, SReal) and z3.is_const(v.t) and v.t.decl().kind() == z3.Z3_OP_UNINTERPRETED:
+            out.append(v.t == rv(val))
+
+    n = s["L"].shape[0]
+    for i in range(n):
+        for j in range(n):
+            pin(s["L"][i, j], 1 + 0.25 * i if i == j else 0.5)
+            pin(s["F"][i, j], (1.0 if i == j else 0.0) + 0.125 * (i + 2 * j + 1))
+            if "Lp" in s:
+                pin(s["Lp"][i, j], 2 + 0.25 * i if i == j else 0.5)
+            else:
+                pin(s["Q"][i, j], 0.5 + 0.125 * i if i == j else 0.0625)
+    for i in range(H.shape[0]):
+        for j in range(n):
+            pin(H[i, j], [1.0, -2.0, 0.5][(i + j) % 3])
+        for j in range(H.shape[0]):
+            pin(Lr[i, j], 1 + 0.25 * i if i == j else 0.5)
+    return out
+
+
+def _plain_residuals(rep, label, goal, cons, pins, rc, inputs):
+    """Decides `goal` (sigma_y_res, innovation are the plain differences).  It is an identity of the
+    terms the run produced unless the code sent a component through the angular residual; then a counterexample is searched with the
+    system matrices pinned to generic rationals (x, y stay solver variables), on the wrap contracts alone (sliced: a candidate) and is
+    replayed on the real filter - the replay decides."""
+    from symx.core import refute
+
+    v = refute(goal, [], 20000)
+    if v.status == "unsat":
+        rep._item(label, "prove", v)
+        rep.sample({"obligation": f"{rep.ob}:{label}", "verdict": v.status, "what": "linear measurement: sigma_y_res = Y - mean, innovation = y - mean"})
+        return True
+    wraps = [z3.And(r > -PI, r <= PI, r == a - b - TWOPI * z3.ToReal(k)) for (r, k, a, b) in rc.calls]
+    gram = [c for c in cons if z3.is_eq(c) and len(free_vars(c)) == 1] + [c for c in cons if len(free_vars(c)) == 1 and not z3.is_eq(c)]  # sqrt contract of gamma
+    box = [z3.And(t >= -1000, t <= 1000) for t in terms(inputs.x) + terms(inputs.y)]
+    for cand in (wraps + gram + pins + box, list(cons) + pins + box):
+        if refute(goal, cand, 20000).status == "sat":
+            return bool(rep.prove(label, goal, cand, timeout_ms=20000, inputs=inputs, replay=replay_update, sample="linear measurement: sigma_y_res = Y - mean, innovation = y - mean"))
+    return bool(rep.prove(label, goal, cons, timeout_ms=60000, inputs=inputs, replay=replay_update, sample="linear measurement: sigma_y_res = Y - mean, innovation = y - mean"))
+
+
 def o2_update(rep, n, m, resample, split=None):
     chol_holder = {}
     tag = f"n={n},m={m},{'redraw' if resample else 'no-redraw'}" + (f",split={split}" if split else "")
@@ -291,12 +354,13 @@ def o2_update(rep, n, m, resample, split=None):
         from resonaate.physics import statistics as ST
 
         chol = CholeskyStub()
+        rc = ResidualCut()
 
         def mk():
             f, s = make_filter(n, resample, chol, tuned=False)
             return f, s
 
-        with Env(chol):
+        with Env(chol, rc):
             f, s = mk()
             H = reals("H", m, n)
             Lr = lower("Lr", m)
@@ -333,7 +397,15 @@ def o2_update(rep, n, m, resample, split=None):
             d["Q"] = marray(mo, Q)
             return d
 
+        inputs.x, inputs.y = x, y
+
         kw = dict(linearize=True, timeout_ms=120000, inputs=inputs, replay=replay_update)
+        # the measurement is linear (no component is an angle): residuals and innovation are plain differences
+        Ys = H.dot(f.sigma_points)
+        g_plain = z3.And(eq_arrays(f.sigma_y_res, Ys - np.asarray(f.mean_pred_y, dtype=object).reshape((m, 1))), eq_arrays(f.innovation, y - f.mean_pred_y))
+        if not _plain_residuals(rep, f"plain-residuals[{tag}]", g_plain, cons, _pins(s, H, Lr), rc, inputs):
+            rep.note(f"[{tag}] the Kalman identities below are functions of the residuals that already differ from the plain differences: not attempted")
+            return
         rep.prove(f"pred_p[{tag}]", eq_arrays(f.pred_p, pp), cons, sample="pred_p = F P F^T + Q", **kw)
         rep.prove(f"mean_pred_y[{tag}]", eq_arrays(f.mean_pred_y, H.dot(F.dot(x))), cons, sample="predicted measurement = H pred_x", **kw)
         rep.prove(f"innov_cvr[{tag}]", eq_arrays(f.innov_cvr, S), cons, sample="innov_cvr = H Pi H^T + R", **kw)
